@@ -325,6 +325,8 @@ class IndicationMonitor(Monitor):
     def __init__(self, w, strict_order: bool = False, msgs_expect_oid=None, msgs=None):
         self.strict = strict_order
         self.blind = False
+        self.finished_tids_b = set()
+        self.src_cancelled = False
         self.oid = msgs_expect_oid
         self.msgs = msgs
         self.order = {"a": [], "b": []}
@@ -369,6 +371,8 @@ class IndicationMonitor(Monitor):
 
     def _sender(self, w, rec, names, bits):
         c = w.cfg
+        if (rec.op == "cancel" and rec.ret) or rec.faults:
+            self.src_cancelled = True
         if rec.op == "put":
             if rec.ret is True and rec.exc is None:
                 self.put_ok_pending = True
@@ -408,6 +412,9 @@ class IndicationMonitor(Monitor):
             self.fin_accepted_a = rec.inb_info
         if "finished" in names:
             fi = [i for i in rec.inds if i[0] == "finished"][0]
+            if self.fin_accepted_a is None and c.mode == UNACK and not c.closure and not self.src_cancelled and fi[2] != (0, 0, 3):
+                # no Finished PDU exists for this completion: nothing of another transaction's may be reported
+                w.violate("C15.finished_params_sender", f"ind={fi[2]} without any Finished PDU (unacknowledged, no closure)", "")
             if self.fin_accepted_a is not None:
                 want = tuple(self.fin_accepted_a[1:4])
                 if fi[2] != want:
@@ -452,15 +459,27 @@ class IndicationMonitor(Monitor):
             if k == "MD" and rec.pre.step == "IDLE" and "metadata_recv" not in names:
                 w.violate("C15.missing", "b.dst metadata_recv", "")
         fins = [e for e in rec.emitted if e.kind == "FIN" and e.pdu is not None]
+        # causal order per transaction: once Transaction-Finished was delivered for a transaction, nothing is
+        # "received" for it any more (history shell: a finished transaction is never re-opened)
+        if w.cfg.shell == "history":
+            for i in rec.inds:
+                if i[0] in ("metadata_recv", "file_segment_recv", "eof_recv") and i[1] in self.finished_tids_b:
+                    w.violate("C15.order", f"b: {i[0]} after Transaction-Finished of the same transaction step={rec.pre.step} in={k}", "")
         if "finished" in names:
             fi = [i for i in rec.inds if i[0] == "finished"][0]
             self.last_fin_ind_b = fi
+            self.finished_tids_b.add(fi[1])
             if fins:
                 want = tuple(fins[0].info[1:4])
                 if fi[2] != want:
                     w.violate("C15.finished_params_receiver", f"ind={fi[2]} fin_pdu={want}", "")
                 if fi[3] != fins[0].info[4]:
                     w.violate("C15.finished_fault_location", f"ind={fi[3]} fin_pdu={fins[0].info[4]}", "")
+        # every Finished PDU reports the completion the user was told about last
+        if fins and bits & 8 and self.last_fin_ind_b is not None and "finished" not in names:
+            fi = self.last_fin_ind_b
+            if fi[2] != tuple(fins[-1].info[1:4]) and self.fin_emitted_b:
+                w.violate("C15.finished_pdu_without_indication", f"fin_pdu={fins[-1].info[1:4]} last indication={fi[2]}", f"step={rec.pre.step}")
         if fins and not self.fin_emitted_b:
             self.fin_emitted_b = True
             # the indication belongs to the completion, which may have happened in an earlier call
